@@ -1,5 +1,6 @@
 import AffVerif.Proofs.PruneSound
 import AffVerif.Proofs.ArithLift
+import AffVerif.Proofs.CoordLemmas
 /-!
 # C14 — polytope constructors and transformations are set-exact
 
@@ -118,5 +119,112 @@ theorem C14_unbounded_empty (n : Nat) (x : List α) :
     have := h (zeros n, -1) (by simp [Poly.empty, Aff.rows])
     simp at this
     linarith
+
+/-! ### boxes -/
+
+/-- closed interval with optional (infinite) ends -/
+def inInterval (lo hi : Option α) (v : α) : Prop :=
+  (match lo with | none => True | some l => l ≤ v) ∧ (match hi with | none => True | some h => v ≤ h)
+
+theorem axisRows_mem (n axis : Nat) (lo hi : Option α) (x : List α) (ha : axis < n) :
+    (∀ rb ∈ Poly.axisRows n axis lo hi, dot rb.1 x ≤ rb.2) ↔ inInterval lo hi (x.getD axis 0) := by
+  unfold Poly.axisRows inInterval
+  simp only [List.mem_cons, List.mem_nil_iff, or_false, forall_eq_or_imp, forall_eq]
+  apply and_congr
+  · cases lo with
+    | none => simp
+    | some l => simp only [dot_unitVec, ha, if_true]; constructor <;> intro h <;> linarith
+  · cases hi with
+    | none => simp
+    | some h => simp only [dot_unitVec, ha, if_true, one_mul]
+
+/-- `axis_bounds(dim, axis, lo, hi)`: the slab `lo ≤ x_axis ≤ hi`; an infinite end contributes the row `0 ≤ 1` -/
+theorem C14_axis_bounds (n axis : Nat) (lo hi : Option α) (x : List α) (ha : axis < n) :
+    Poly.Mem (Poly.axisBounds n axis lo hi) x ↔ inInterval lo hi (x.getD axis 0) := by
+  unfold Poly.axisBounds Poly.Mem
+  rw [ofRows_rows]
+  exact axisRows_mem n axis lo hi x ha
+
+theorem hyperrectangleAux_mem (n : Nat) (i : Nat) (ivs : List (Option α × Option α)) (x : List α)
+    (hn : i + ivs.length ≤ n) :
+    (∀ rb ∈ Poly.hyperrectangleAux n i ivs, dot rb.1 x ≤ rb.2) ↔
+    ∀ j (h : j < ivs.length), inInterval (ivs[j]).1 (ivs[j]).2 (x.getD (i + j) 0) := by
+  induction ivs generalizing i with
+  | nil => simp [Poly.hyperrectangleAux]
+  | cons iv ivs ih =>
+    obtain ⟨lo, hi⟩ := iv
+    simp only [Poly.hyperrectangleAux, List.mem_append]
+    simp only [List.length_cons] at hn
+    have h1 := axisRows_mem n i lo hi x (by omega)
+    have h2 := ih (i+1) (by omega)
+    constructor
+    · intro h j hj
+      cases j with
+      | zero => simpa using h1.mp (fun rb hrb => h rb (Or.inl hrb))
+      | succ j =>
+        have := h2.mp (fun rb hrb => h rb (Or.inr hrb)) j (by simpa using hj)
+        simpa [show i + 1 + j = i + (j + 1) by omega] using this
+    · intro h rb hrb
+      rcases hrb with hrb | hrb
+      · have h0 := h 0 (by simp)
+        simp only [List.getElem_cons_zero, Nat.add_zero] at h0
+        exact h1.mpr h0 rb hrb
+      · refine h2.mpr (fun j hj => ?_) rb hrb
+        have := h (j+1) (by simpa using hj)
+        simpa [show i + (j + 1) = i + 1 + j by omega] using this
+
+/-- `hyperrectangle(intervals)`: the product of the closed intervals, infinite ends allowed -/
+theorem C14_hyperrectangle (ivs : List (Option α × Option α)) (x : List α) :
+    Poly.Mem (Poly.hyperrectangle ivs) x ↔
+    ∀ j (h : j < ivs.length), inInterval (ivs[j]).1 (ivs[j]).2 (x.getD j 0) := by
+  unfold Poly.hyperrectangle Poly.Mem
+  rw [ofRows_rows, hyperrectangleAux_mem ivs.length 0 ivs x (by omega)]
+  simp
+
+/-! ### affine images -/
+
+theorem matVec_vsub (n : Nat) (M : Mat α) (y c : List α) (hy : y.length = n) (hc : c.length = n) :
+    matVec M (vsub y c) = vsub (matVec M y) (matVec M c) := by
+  unfold matVec
+  induction M with
+  | nil => simp [vsub]
+  | cons r rs ih =>
+    simp only [List.map_cons, vsub_cons]
+    rw [ih, dot_vsub_right r y c (by rw [hy, hc])]
+
+/-- `apply_post(inv, c)`: `y` lies in the result exactly when `inv·(y − c)` lies in `P` — i.e. the result is the image
+    of `P` under `x ↦ inv⁻¹·x + c` whenever `inv` is invertible -/
+theorem C14_apply_post (p : Aff α) (n : Nat) (inv : Mat α) (c y : List α)
+    (hinv : ∀ r ∈ inv, r.length = n) (hp : ∀ r ∈ p.mat, r.length = inv.length)
+    (hy : y.length = n) (hc : c.length = n) :
+    Poly.Mem (Poly.applyPost p n inv c) y ↔ Poly.Mem p (matVec inv (vsub y c)) := by
+  unfold Poly.applyPost Poly.Mem Aff.rows
+  simp only
+  have key : ∀ (mat : Mat α) (bias : List α), (∀ r ∈ mat, r.length = inv.length) →
+      ((∀ rb ∈ (matMul n mat inv).zip (vadd (matVec mat (matVec inv c)) bias), dot rb.1 y ≤ rb.2) ↔
+       (∀ rb ∈ mat.zip bias, dot rb.1 (matVec inv (vsub y c)) ≤ rb.2)) := by
+    intro mat
+    induction mat with
+    | nil => intro bias _; simp [matMul]
+    | cons a as ih =>
+      intro bias hm
+      cases bias with
+      | nil => simp [matMul, matVec]
+      | cons b bs =>
+        have ha : a.length = inv.length := hm a (List.mem_cons_self)
+        simp only [matMul, matVec, List.map_cons, vadd_cons, List.zip_cons_cons, List.mem_cons, forall_eq_or_imp]
+        have := ih bs (fun r hr => hm r (List.mem_cons_of_mem _ hr))
+        simp only [matMul, matVec] at this
+        rw [this]
+        have e1 : dot (vecMat n a inv) y = dot a (matVec inv y) := dot_vecMat n a inv y hinv ha
+        have e2 : matVec inv (vsub y c) = vsub (matVec inv y) (matVec inv c) := matVec_vsub n inv y c hy hc
+        have e3 : dot a (vsub (matVec inv y) (matVec inv c)) = dot a (matVec inv y) - dot a (matVec inv c) :=
+          dot_vsub_right a _ _ (by simp)
+        simp only [matVec] at e1 e2 e3
+        rw [e1, e2, e3]
+        constructor
+        · rintro ⟨h1, h2⟩; exact ⟨by linarith, h2⟩
+        · rintro ⟨h1, h2⟩; exact ⟨by linarith, h2⟩
+  exact key p.mat p.bias hp
 
 end AV
